@@ -1,4 +1,6 @@
 """Family `nns`: C10, C11, C12 — spec/NNS.tla, monitor spec/NNSTrace.tla, driver harness/nns."""
+import os
+
 import vcheck as V
 
 
@@ -53,4 +55,7 @@ class NNS(V.Family):
 
 
 def run(pid, tier, seed, replay=None):
-    return V.run_family(NNS(), pid, tier, seed, replay)
+    F = NNS()
+    if os.environ.get("NNS_NOTRAPS"):  # measurement knob: generated scenarios only (no hand-written traps)
+        F.tiers = {k: dict(v, env={"VERIF_NOTRAPS": "1"}) for k, v in F.tiers.items()}
+    return V.run_family(F, pid, tier, seed, replay)
